@@ -40,7 +40,7 @@ func literalScan(s string) (out string, ok bool) {
 	return sb.String(), true
 }
 
-var c02Alphabet = []byte{'<', '%', '>', '\\', '=', 'a', '"', '#', '\n'}
+var c02Alphabet = []byte{'<', '%', '>', '\\', '=', 'a', '"', '#', '\n', 0}
 
 func c02Data() map[string]interface{} {
 	return map[string]interface{}{
@@ -128,7 +128,7 @@ type c02Gen struct {
 	classes map[string]bool
 }
 
-var c02TextAlpha = []string{"<", "%", ">", "\\", "=", "#", "\"", "'", "`", "{", "}", "(", ")", "\n", "\r", "\t", " ", "a", "é", "✓", "<%", "%>", "<%=", "b", "-", "."}
+var c02TextAlpha = []string{"<", "%", ">", "\\", "=", "#", "\"", "'", "`", "{", "}", "(", ")", "\n", "\r", "\t", " ", "a", "é", "✓", "<%", "%>", "<%=", "b", "-", ".", "\x00", "h\x00i\x00", "\xff\xfe"}
 
 // text returns an intended literal text (what must appear in the output).
 func (g *c02Gen) text() string {
@@ -442,7 +442,7 @@ func init() {
 		Level: "exploration",
 		Rule: "G2: every string of length <= 6 (quick) / <= 8 (thorough) over {< % > \\ = a \" # LF} in which the reference scanner finds no live tag opener must render to itself with only the escaping backslashes of \\<% removed (exhaustive; non-trivial = contains a backslash and a '<'). " +
 			"G1: random segment lists Text|Out|Silent|Comment nested in if/else/for/fn/block-helper/contentFor bodies, text over a hostile alphabet encoded with the two escapes, output values ints and raw(string literal with arbitrary contents); expected output computed by the generator; non-trivial = at least two segment classes present (counted by template hash). Oracle: byte equality and err == nil.",
-		Assume:     []string{"NUL is excluded from literal text (lexer EOF sentinel)", "string literals never end in a backslash before the closing quote (abstention)", "intended text never has a backslash directly before a literal <% (not denotable with the two escapes)"},
+		Assume:     []string{"string literals never end in a backslash before the closing quote (abstention)", "intended text never has a backslash directly before a literal <% (not denotable with the two escapes)"},
 		Batches:    batchesQT(32, 128),
 		Run:        c02Run,
 		Exhaustive: func(core.Tier) bool { return true },
